@@ -1,7 +1,7 @@
 (* Property C12: eager start -- eligible jobs start immediately; a free window slot is never wasted.
    Only property theorems here. Model R, level 2 (timing: the clock moves only at quiescent points). *)
 From AJ Require Import Common.Util Run.RModel Run.RFacts Run.RFacts2 Run.RInv Run.RMon Run.RWin Run.RProps1
-  Run.RProps3 Run.RProps4 Props.RExample.
+  Run.RProps3 Run.RProps4 Run.RShut1 Run.RShut2 Run.RTime Run.RPrompt Props.RExample.
 
 (* Time passes only through ETick, and (level 2) only in a quiescent state: no job, run or handler
    has anything left to do at the current instant. *)
@@ -39,6 +39,26 @@ Theorem C12_free_slot_not_wasted : forall lvl c h s t s' n x, wf c = true -> 2 <
   st (Jb s x) <> Idle /\ st (Jb s x) <> Created.
 Proof. exact free_slot_not_wasted. Qed.
 Print Assumptions C12_free_slot_not_wasted.
+
+(* The same as a statement about histories.  Take any history in which the clock moves (ETick t) and
+   job x -- atomic or a nested scheduler -- of an unwindowed scheduler starts later.  At the tick it
+   was not the case that its scheduler was in its main loop with all the requirements of x done:
+   the scheduler began, or the last requirement finished, after that tick; when no further tick
+   lies in between, in the very instant t of the start. *)
+Theorem C12_prompt_start : forall lvl c h1 s1 t h2 s2 e s3 x, wf c = true -> 2 <= lvl ->
+  Reach lvl c h1 s1 -> run lvl c s1 (ETick t :: h2) = Some s2 ->
+  (e = EStart x \/ exists o, e = EBegin x o) -> x <> 0 ->
+  step lvl c s2 e = Some s3 ->
+  j_window (jc c (parent c x)) = 0 ->
+  ~ (ph (Rn s1 (parent c x)) = PMain /\ forall r, In r (reqs c x) -> is_done (st (Jb s1 r)) = true).
+Proof. exact prompt_start. Qed.
+Print Assumptions C12_prompt_start.
+
+Theorem C12_prompt_instant : forall lvl c s1 t h2 s2, wf c = true ->
+  run lvl c s1 (ETick t :: h2) = Some s2 ->
+  forallb (fun e => negb (is_tick e)) h2 = true -> now s2 = t.
+Proof. exact prompt_instant. Qed.
+Print Assumptions C12_prompt_instant.
 
 (* never before: C01 *)
 Theorem C12_not_before : forall lvl c h0 s e s', wf c = true ->
